@@ -4,7 +4,7 @@ The rules name local variables of the functions they inspect (they were written 
 swaps the operands of == / != or adds/removes a docstring must not change any verdict.  For every function (top level, method, or nested one level) whose
 ALPHA-CANONICAL form equals that of the reference version recorded in sa/reference.json, the loader substitutes the reference version's AST (re-positioned at the
 current line), so that the rules see the names they know.  Canonical form: locals (names bound inside the function, parameters excluded) renamed by order of
-first occurrence, operands of == / != / is / is not ordered textually, docstrings dropped.  Two functions have the same canonical form iff they are equal up to a
+first occurrence, operands of == / != / is / is not ordered textually, docstrings dropped, a temporary that only carries a return value (`v = E; return v`) inlined, `if not c: B else: A` turned into `if c: A else: B`.  Two functions have the same canonical form iff they are equal up to a
 consistent renaming of these identifiers and those operand swaps - anything else (a changed expression, an added statement, a different call) leaves the
 function as it is and the rules judge it unchanged.
 
@@ -122,8 +122,35 @@ class _Canon(ast.NodeTransformer):
         return n
 
 
+def _inline_result_temps(fn: ast.AST) -> None:
+    """`v = E; return v` (v bound once, used once) is `return E`; `if not c: B else: A` is `if c: A else: B`."""
+    stores = {}
+    loads = {}
+    for n in ast.walk(fn):
+        if isinstance(n, ast.Name):
+            d = stores if isinstance(n.ctx, ast.Store) else loads
+            d[n.id] = d.get(n.id, 0) + 1
+    for node in ast.walk(fn):
+        for fld in ("body", "orelse", "finalbody"):
+            block = getattr(node, fld, None)
+            if not isinstance(block, list):
+                continue
+            i = 0
+            while i + 1 < len(block):
+                a, b = block[i], block[i + 1]
+                if (isinstance(a, ast.Assign) and len(a.targets) == 1 and isinstance(a.targets[0], ast.Name) and isinstance(b, ast.Return) and isinstance(b.value, ast.Name)
+                        and b.value.id == a.targets[0].id and stores.get(b.value.id) == 1 and loads.get(b.value.id) == 1):
+                    block[i:i + 2] = [ast.Return(value=a.value)]
+                    continue
+                i += 1
+        if isinstance(node, ast.If) and node.orelse and isinstance(node.test, ast.UnaryOp) and isinstance(node.test.op, ast.Not) and not (len(node.orelse) == 1 and isinstance(node.orelse[0], ast.If)):
+            node.test = node.test.operand
+            node.body, node.orelse = node.orelse, node.body
+
+
 def canonical(fn: ast.AST) -> str:
     f2 = copy.deepcopy(_detached(fn))
+    _inline_result_temps(f2)
     names = _bound_names(f2)
     mapping = {nm: f"_v{i}" for i, nm in enumerate(names)}
     f2 = _Canon(mapping).visit(f2)
